@@ -61,7 +61,7 @@ theorem C18_file_block (r : FileRep) :
   · simp +decide [fileBlock, hasTag, List.filter_map, Function.comp_def]
   · simp +decide [fileBlock, hasTag, List.filter_map, Function.comp_def]
   · have : (fileBlock r).filter (hasTag tagInfoInFile)
-        = (sortTexts r.keys).map fun k => ⟨tagInfoInFile, .single k⟩ := by
+        = (Spdx.sortTexts r.keys).map fun k => ⟨tagInfoInFile, .single k⟩ := by
       simp +decide [fileBlock, hasTag, List.filter_map, Function.comp_def]
     rw [this]
     exact (List.mergeSort_perm r.keys _).map _
